@@ -238,3 +238,10 @@ def workload(ctx, repo):
         if k % 331 == 0:
             ctx.sample(case)
         run_case(ctx, repo, case)
+        if k % 5 == 0 and case["op"] == "pair":
+            tw = gen.twin_of(rng, mode, case["a"])
+            if tw is not None:
+                case = dict(case, a=tw)
+                ctx.case = case
+                ctx.ev("cases.twin")
+                run_case(ctx, repo, case)
